@@ -1,0 +1,10 @@
+// -*- Mode: Go; indent-tabs-mode: t -*-
+//go:build !verif
+
+package state
+
+// Simulation ordering hooks (build tag "verif"); no-ops in normal builds.
+
+func verifOrderTasks(ts []*Task) {}
+
+func verifOrderChanges(cs []*Change) {}
